@@ -310,7 +310,8 @@ static const char *lg_eq_elem(int f, const void *e, const lg_sel_t *s)
   }
 }
 
-static void lg_cmp_list(int f, const lg_proj_t *pj, const void *list, const uint8_t *d, size_t len)
+/* returns 1 if the list equals the projection */
+static int lg_cmp_list(int f, const lg_proj_t *pj, const void *list, const uint8_t *d, size_t len)
 {
   const char *fn = lg_fnames[f];
   const void *e  = list;
@@ -319,7 +320,7 @@ static void lg_cmp_list(int f, const lg_proj_t *pj, const void *list, const uint
     const char *diff;
     if (i >= pj->nsel) {
       lg_report(fn, "count", d, len, "list has more than the %zu element(s) the record API reports", pj->nsel);
-      return;
+      return 0;
     }
     lg_c_leg_elems++;
     diff = lg_eq_elem(f, e, &pj->sel[i]);
@@ -328,16 +329,18 @@ static void lg_cmp_list(int f, const lg_proj_t *pj, const void *list, const uint
       for (j = 0; j < pj->nsel; j++) {
         if (j != i && lg_eq_elem(f, e, &pj->sel[j]) == NULL) {
           lg_report(fn, "order", d, len, "element %zu equals record-API element %zu: not in answer order", i, j);
-          return;
+          return 0;
         }
       }
       lg_report(fn, diff, d, len, "element %zu of %zu: field '%s' differs from the record API", i, pj->nsel, diff);
-      return;
+      return 0;
     }
   }
   if (i != pj->nsel) {
     lg_report(fn, "count", d, len, "list has %zu element(s), the record API reports %zu", i, pj->nsel);
+    return 0;
   }
+  return 1;
 }
 
 /* string vector comparison (h_aliases) */
@@ -668,8 +671,10 @@ static void lg_legacy_check(int f, const uint8_t *data, size_t len, const ares_d
             break;
           }
           default:
-            lg_walk_data(f, res.data);
-            lg_cmp_list(f, pj, res.data, data, len);
+            /* compare first: the walk trusts the length fields of the elements */
+            if (lg_cmp_list(f, pj, res.data, data, len)) {
+              lg_walk_data(f, res.data);
+            }
             break;
         }
       } else if (res.status == ARES_ENODATA && (f == LG_F_A || f == LG_F_AAAA) && !o->n_null && res.n != 0) {
